@@ -125,6 +125,22 @@ impl KalmanFilter {
     }
 }
 
+/// State observation / injection for the out-of-tree checker (feature `verif-hooks`).
+#[cfg(feature = "verif-hooks")]
+impl KalmanFilter {
+    /// `(x, v, p, initialized)`
+    pub fn verif_state(&self) -> (f64, f64, [f64; 4], bool) {
+        (self.x, self.v, self.p, self.initialized)
+    }
+
+    pub fn verif_set_state(&mut self, x: f64, v: f64, p: [f64; 4], initialized: bool) {
+        self.x = x;
+        self.v = v;
+        self.p = p;
+        self.initialized = initialized;
+    }
+}
+
 #[cfg(test)]
 mod tests {
     use super::*;
